@@ -338,8 +338,12 @@ func (p *Proj) World() *AWorld {
 			continue
 		}
 		var acc *Account
-		if ai.Shard >= 0 && ai.Shard < len(w.Shards) {
-			acc = w.Shards[ai.Shard].Peek(ai.Bytes)
+		home := w.HomeShard(ai.Bytes)
+		if ai.Kind == "junk" {
+			home = ai.Shard
+		}
+		if home >= 0 && home < len(w.Shards) {
+			acc = w.Shards[home].Peek(ai.Bytes)
 		}
 		a.Acct[ai.Name] = p.Acct(acc)
 		a.Oracle[ai.Name] = "yes"
@@ -369,7 +373,7 @@ func (p *Proj) World() *AWorld {
 				continue
 			}
 			ai, known := w.byBytes[k]
-			if known && ai.Shard == si {
+			if known && (w.HomeShard(ai.Bytes) == si || (ai.Kind == "junk" && ai.Shard == si)) {
 				continue // projected above
 			}
 			// an account that exists where it should not: show it
